@@ -51,6 +51,25 @@ def lib_type_skeleton(t):
     raise ValueError(k)
 
 
+def type_tree(t):
+    """(class, parameters as canonical JSON text, children) of a Type object, recursively"""
+    k = type(t).__name__
+    par = json.dumps(t.parameters, sort_keys=True)
+    if k == "ArrayType":
+        return (k, t.length, type_tree(t.type))
+    if k in ("ListType", "OptionType"):
+        return (k, par, type_tree(t.type))
+    if k == "RegularType":
+        return (k, par, t.size, type_tree(t.type))
+    if k == "UnionType":
+        return (k, par, tuple(type_tree(x) for x in t.types))
+    if k == "RecordType":
+        return (k, par, None if t.istuple else tuple(t.keys()), tuple(type_tree(x) for x in t.types))
+    if k == "PrimitiveType":
+        return (k, par, t.dtype)
+    return (k, par)
+
+
 def model_depths(d):
     return layoutsem.minmax_depth(d)
 
@@ -189,6 +208,11 @@ class C17(runner.Check):
         # parameter strings after one trip through Python's json, so string identity is required from the
         # second trip on
         bad = not (t2 == t)
+        if not bad and type_tree(t2) != type_tree(t):
+            # the library's == looks at __array__/__record__ only: every parameter value must survive with its JSON type
+            # (-1 must not come back as -1.0)
+            self._vp(st, d, s, "%r re-parsed as %r: parameters differ" % (s, t2))
+            return
         if not bad and repr(t2) != s:
             try:
                 bad = repr(self._parser(repr(t2))) != repr(t2)
